@@ -264,6 +264,10 @@ func (w *World) canonCall(c *ssa.CallCommon, d int) string {
 			for _, a := range c.Args[1:] {
 				args = append(args, w.canon(a, d+1))
 			}
+			// uint256 multiplication is commutative: print its operands in a fixed order
+			if len(args) == 2 && fn.Name() == "Mul" && fn.Pkg != nil && fn.Pkg.Pkg.Path() == "github.com/holiman/uint256" && args[1] < args[0] {
+				args[0], args[1] = args[1], args[0]
+			}
 			mname := fn.Name()
 			if o := fn.Origin(); o != nil {
 				mname = o.Name()
@@ -563,4 +567,12 @@ func markOuter(s string) string {
 
 func isIdentChar(c byte) bool {
 	return c == '_' || c >= 'a' && c <= 'z' || c >= 'A' && c <= 'Z' || c >= '0' && c <= '9' || c == '.'
+}
+
+// mulExpr prints recv.Mul(a, b) the way canonCall does (operands ordered).
+func mulExpr(recv, a, b string) string {
+	if b < a {
+		a, b = b, a
+	}
+	return recv + ".Mul(" + a + ", " + b + ")"
 }
